@@ -8,6 +8,20 @@ ENGINE_ASSUMPTIONS = [
 ]
 
 PROPS = {
+    "C01": {
+        "level": "exploration",
+        "assumptions": ENGINE_ASSUMPTIONS,
+        "parts": [
+            {"name": "engine", "test": "TestC01", "quick_checks": 800, "thorough_checks": 60000, "thorough_shards": 16},
+        ],
+    },
+    "C02": {
+        "level": "exploration",
+        "assumptions": ENGINE_ASSUMPTIONS,
+        "parts": [
+            {"name": "engine", "test": "TestC02", "quick_checks": 800, "thorough_checks": 60000, "thorough_shards": 16},
+        ],
+    },
     "C03": {
         "level": "exploration",
         "assumptions": ENGINE_ASSUMPTIONS,
